@@ -27,6 +27,7 @@ class BodyError(Exception):
 class Log(_KernelObject):
     def __init__(self):
         self.created = []      # (who, path)
+        self.removed = []      # paths removed through the pool by a child
         self.events = []
 
 
@@ -68,7 +69,7 @@ def build_plan(choice: Choice, tier):
         p["child_raises"] = d(2, "child.raises") == 1
         p["parent_creates_first"] = d(2, "parent.first")
     elif p["family"] == "filepool":
-        n = 1 + d(5, "files")
+        n = [1, 2, 3, 4, 5, 0, 1, 2][d(8, "files")]       # an EMPTY set of files is a set of files too
         # the paths may be given as any iterable; one-shot forms only when the pool is entered once
         p["files_form"] = ["list", "tuple", "generator", "iterator", "list"][d(5, "files.form")]
         p["relative_paths"] = d(4, "relative.paths") == 3     # paths relative to the working directory
@@ -80,12 +81,14 @@ def build_plan(choice: Choice, tier):
         # propagates; the file then appears and the same pool object is used again
         # an unusual member of the set: a device file that can be written but not synced or seeked
         p["dev_null_at"] = d(max(1, n - 1), "devnull.at") if (d(4, "devnull") == 3 and p["modes"] in ("w", "a") and n >= 2) else None
-        p["missing_at_first_enter"] = d(n, "missing.which") if (d(4, "missing") == 3 and p["modes"] in ("r", "rb")) else None
+        p["missing_at_first_enter"] = d(n, "missing.which") if (d(4, "missing") == 3 and p["modes"] in ("r", "rb") and n >= 1) else None
         if p["reenter"] or p["missing_at_first_enter"] is not None:
             p["files_form"] = "list" if p["files_form"] in ("generator", "iterator") else p["files_form"]
     else:
         p["children"] = 1 + d(3, "children")
         p["child_creates"] = [1 + d(3, "child.creates") for _ in range(p["children"])]
+        # a child may also remove files of its own through the pool (concurrently with removes of other processes)
+        p["child_removes"] = [d(n + 1, "child.removes") if d(2, "child.removes.any") else 0 for n in p["child_creates"]]
         ops = []
         for _ in range(d(8, "ops") + 1):
             k = d(8, "op")
@@ -454,9 +457,24 @@ def scenario_multi(k: Kernel, plan, obs):
             self.who = who
 
         def run(self):
+            mine = []
             for _ in range(self.n):
                 pth = self.pool.create()
                 log.created.append((self.who, pth))
+                mine.append(pth)
+                k.switch("child.pause")
+            for pth in mine[:self.n_remove]:
+                try:
+                    self.pool.remove(pth)
+                except ValueError:
+                    # not in the pool any more: legitimate only if a flush() of the parent took it meanwhile
+                    # (then the file is gone as well)
+                    if not any(o[0] == "flush" for o in plan["ops"]) or os.path.exists(pth):
+                        raise
+                log.removed.append(pth)
+                if os.path.exists(pth):
+                    viol.append({"class": "tmp-pool-multi", "site": "removed-file-exists",
+                                 "message": f"{self.who}: remove() returned but the file is still there"})
                 k.switch("child.pause")
 
     pool = files.TmpPool(d, multi_proc=True)
@@ -471,6 +489,7 @@ def scenario_multi(k: Kernel, plan, obs):
         for c, at in enumerate(plan["fork_at"]):
             if at == i and c not in [x[0] for x in children]:
                 ch = Child(pool, plan["child_creates"][c], f"child{c}")
+                ch.n_remove = plan.get("child_removes", [0] * 9)[c]
                 ch.start()
                 children.append((c, ch))
 
@@ -537,7 +556,7 @@ def scenario_multi(k: Kernel, plan, obs):
                 # everybody has finished and nothing was flushed: the pool must list exactly what the parent and the
                 # children created, minus what the parent removed
                 listing = sorted(pool[i] for i in range(len(pool)))
-                expected = sorted(set(p_ for _, p_ in log.created) - removed)
+                expected = sorted(set(p_ for _, p_ in log.created) - removed - set(log.removed))
                 if listing != expected:
                     viol.append({"class": "tmp-pool-multi", "site": "listing-after-children",
                                  "message": f"pool lists {len(listing)} paths, {len(expected)} were created and not removed "
